@@ -76,6 +76,19 @@ let parse_table (toks : string list) : parsed_table =
     { n; tbl = Some { t_action = List.rev !acts; t_goto = List.rev !gotos }; raw_conflicts = !conflicts; bad = !bad }
   | _ -> { n = 0; tbl = None; raw_conflicts = 0; bad = Some "unreadable table" }
 
+(* "L:p,q/R:t/N:E=EpE" *)
+let levels_of_text (s : string) : levels =
+  if s = "" then [] else
+  List.map (fun l ->
+    let a, hs = match String.index_opt l ':' with
+      | Some i -> String.sub l 0 i, String.sub l (i + 1) (String.length l - i - 1)
+      | None -> l, "" in
+    let assoc = match a with "L" -> ALeft | "R" -> ARight | _ -> ANone in
+    let handles = List.filter_map (fun h ->
+      if String.length h = 1 then Some (HTerm (Some (nat_of_int (Char.code h.[0] - 97))))
+      else match prod_of_text h with Some p -> Some (HProd p) | None -> None) (split_on hs ",") in
+    (assoc, handles)) (split_on s "/")
+
 let big_fuel = nat_of_int 20000
 let sim_fuel = nat_of_int 400
 let lang_fuel = nat_of_int 4000
@@ -120,6 +133,17 @@ let () =
         setmax "max_terminals" (String.length terms);
         if !prec <> "" then bump "cases_with_precedence" 1;
         if List.exists (fun (p : prod0) -> p.body = []) prods then bump "grammars_with_epsilon" 1;
+        let levels = levels_of_text !prec in
+        let is_op c = is_term c && c <> 'i' && c <> 'l' && c <> 'r' in
+        let expr_ops =   (* Some ops when the grammar is E -> E op E | l E r | i *)
+          if !prec = "" && false then None else
+          let ops = ref [] and okf = ref (start = 'E' && nts = "E") in
+          List.iter (fun ps -> match ps with
+            | "E:lEr" | "E:i" -> ()
+            | _ when String.length ps = 5 && String.sub ps 0 3 = "E:E" && ps.[4] = 'E' && is_op ps.[3] -> ops := ps.[3] :: !ops
+            | _ -> okf := false) (if hf.(4) = "-" then [] else split_on hf.(4) ",");
+          if !okf && !ops <> [] then Some (List.rev !ops) else None in
+        let opn c = nat_of_int (Char.code c - 97) in
         let oracle = lazy (
           let key = hf.(1) ^ " " ^ hf.(4) ^ " " ^ string_of_int maxlen in
           match Hashtbl.find_opt oracle_cache key with
@@ -147,11 +171,20 @@ let () =
               if !prec = "" then mism !opno "api" (Printf.sprintf "%s construction failed with a non-conflict error: %s" m res)
             end else if kind = "CONFLICT" then begin
               bump ("conflict_" ^ m) 1;
+              (match expr_ops with
+               | Some ol when !prec <> "" && levels_disjoint levels
+                              && List.for_all (fun a -> List.for_all (fun b -> group_left levels (opn a) (opn b) <> None) ol) ol ->
+                 mism !opno "api" (Printf.sprintf "%s construction reports a conflict although the declared precedence levels determine every operator pair" m)
+               | _ -> ());
               let pt = parse_table (List.tl rt) in
               if pt.raw_conflicts = 0 then
                 mism !opno "api" (Printf.sprintf "%s construction reports a conflict but every ACTION cell of the returned table has at most one action" m)
             end else if kind = "OK" then begin
               bump ("ok_" ^ m) 1; incr built_ok;
+              (match expr_ops with
+               | Some ol when List.exists (fun a -> List.exists (fun b -> group_left levels (opn a) (opn b) = None) ol) ol ->
+                 mism !opno "api" (Printf.sprintf "%s construction succeeds although the declared precedence levels leave an operator pair undetermined (model: conflict)" m)
+               | _ -> ());
               let pt = parse_table (List.tl rt) in
               setmax "max_states" pt.n;
               (match pt.bad, pt.tbl with
@@ -205,6 +238,24 @@ let () =
                     else
                       mism !opno "fidelity" (Printf.sprintf "%s parser on %S: error position differs: implementation %s, model %s" m w v model_s)
                   end;
+                  (* grouping of  id o1 id o2 id  under the declared precedence *)
+                  (match expr_ops with
+                   | Some _ when go_acc && String.length w = 5 && w.[0] = 'i' && w.[2] = 'i' && w.[4] = 'i' && is_op w.[1] && is_op w.[3] ->
+                     let x = w.[1] and y = w.[3] in
+                     let e = "E=i[i]" in
+                     let sx = String.make 1 x and sy = String.make 1 y in
+                     (match group_left levels (opn x) (opn y) with
+                      | Some left ->
+                        bump "grouping_checks" 1;
+                        let expect =
+                          if left then "E=E" ^ sy ^ "E[E=E" ^ sx ^ "E[" ^ e ^ sx ^ e ^ "]" ^ sy ^ e ^ "]"
+                          else "E=E" ^ sx ^ "E[" ^ e ^ sx ^ "E=E" ^ sy ^ "E[" ^ e ^ sy ^ e ^ "]]" in
+                        let got = match String.index_opt v ']' with
+                          | Some i -> String.sub v (i + 1) (String.length v - i - 1) | None -> v in
+                        if got <> expect then
+                          mism !opno "api" (Printf.sprintf "%s parser groups %S as %s; the declared precedence/associativity prescribes %s" m w got expect)
+                      | None -> ())
+                   | _ -> ());
                   (match model with
                    | Accepted evs when go_acc ->
                      let ps = prods_of evs in
